@@ -671,7 +671,7 @@ def plan(tier, seed):
         # the same endings against a daemon that speaks TLS (config.SSL): the server-side socket is an ssl object
         for rep in range(1 if tier == "quick" else 3):
             shards.append({"servertype": st, "serializer": fixture.SERIALIZERS[(rep + len(st)) % 4], "kind": "main", "rep": 100 + rep, "linger": 0.0, "ssl": True})
-        for rep in range(1 if tier == "quick" else 6):
+        for rep in range(2 if tier == "quick" else 6):
             shards.append({"servertype": st, "serializer": "marshal", "kind": "churn", "rep": rep, "histories": 40 if tier == "quick" else 400})
     return shards
 
@@ -701,7 +701,10 @@ def run_shard(shard, rec):
         fx, world = make_env(P, shard["servertype"], 0.0, 30.0, pool=(1, 12), variant=fixture.variant_for(rec.seed, "c13", repr(sorted(shard.items()))))
         rec.count("fixture_variant:" + fx.variant)
         try:
-            yieldinj.enable(("Pyro5/svr_threads.py", "Pyro5/svr_multiplex.py", "Pyro5/callcontext.py", "Pyro5/socketutil.py"), 0.2, rec.seed * 13 + shard["rep"], max_sleep=0.003,
+            # (even repetitions inject in the transport servers only - the accept / hand-over / disconnect paths get all the delays; odd ones
+            # also in the call context and the connection object, where per-connection state is created and torn down)
+            inj_files = ("Pyro5/svr_threads.py", "Pyro5/svr_multiplex.py") + (("Pyro5/callcontext.py", "Pyro5/socketutil.py") if shard["rep"] % 2 else ())
+            yieldinj.enable(inj_files, 0.2, rec.seed * 13 + shard["rep"], max_sleep=0.003,
                             delay_funcs=(("Pyro5/server.py", "run", 0.004),))      # (the thread of a oneway call gets going late)
             for h in range(shard["histories"]):
                 if rec.should_stop():
